@@ -509,6 +509,11 @@ def parse_args(sig, args):
             s1, s2 = args.split(",", 1)
             inst = parse_inst(s2)
             return s1, inst
+        elif sig == Tuple[str, Term, Term]:
+            # e.g. apply_induct: theorem name, induction variable, goal
+            s1, s2 = args.split(",", 1)
+            t1, t2 = parse_term_list(s2)
+            return s1, t1, t2
         elif sig == List[Term]:
             return parse_term_list(args)
         else:
